@@ -191,6 +191,29 @@ def triggers_of(program: dict, facts: dict[str, dict]) -> dict[str, list[str]]:
                     if has_aggwin and any(r in below for r in refs):
                         hit("D50", sid)
                         break
+        if op in ("export", "slice_head"):
+            # D64: an arrange below an alias, none above it
+            from .campaign import ancestors as _anc64
+            by64 = {x["id"]: x for x in program["stmts"]}
+            anc64 = _anc64(program, st["src"]) if st.get("src") else set()
+            for a in anc64:
+                if a in by64 and by64[a]["op"] == "alias":
+                    below = _anc64(program, a)
+                    above = anc64 - below
+                    if any(by64[b]["op"] == "arrange" for b in below if b in by64) and not any(by64[b]["op"] == "arrange" for b in above if b in by64):
+                        hit("D64", sid)
+                        break
+        if op in ("mutate", "filter", "summarize", "arrange"):
+            found63 = []
+
+            def _c63(d):
+                if "case" in d:
+                    vals = [b[1] for b in d["case"]] + ([d["default"]] if d.get("default") is not None else [])
+                    if all(not _has_col(v) for v in vals) and any(_has_col(b[0]) for b in d["case"]):
+                        found63.append(1)
+            _walk(st, _c63)
+            if found63:
+                hit("D63", sid)
         if op == "mutate" and (ops & {"shift", "row_number"}):
             found = []
             _walk(st, lambda d: found.append(1) if d.get("fn") in ("shift", "row_number") and not d.get("arrange") else None)
